@@ -1,5 +1,6 @@
 import VermouthModel.C02
 import VermouthModel.C02_Hist
+import VermouthModel.C02_Call
 import VermouthModel.C02_Repo
 import Generated.C02Tables
 import Generated.C02RepoTables
@@ -23,6 +24,42 @@ def interOf (t : Tok) : Option Inter := do
 def namedOf {α} (f : Tok → Option α) (t : Tok) : Option (String × α) := do
   match ← t.list? with
   | [n, v] => pure (← n.str?, ← f v)
+  | _ => none
+
+def rawAtomOf (t : Tok) : Option RawAtom := do
+  match ← t.list? with
+  | [k, aid, ty, ri, rn, an, cg, ch, ms] =>
+    pure { key := ← k.int?, atomid := ← aid.optInt?, atype := ← ty.optStr?, resid := ← ri.optStr?,
+           resname := ← rn.optStr?, atomname := ← an.optStr?, cgnr := ← cg.optStr?, charge := ← ch.str?,
+           mass := ← ms.str? }
+  | _ => none
+
+def optTable (t : Tok) : Option (Option (List (String × List String))) :=
+  match t with
+  | Tok.none => some none
+  | t => do
+    let l ← (← t.list?).mapM (fun e => do
+      match ← e.list? with
+      | [n, v] => pure (← n.str?, ← strs? v)
+      | _ => none)
+    pure (some l)
+
+def callOf (args : List Tok) : Option Call := do
+  match args with
+  | [ma, mm, nr, hd, defs, atoms, inters, pa, poa, pm, pom] =>
+    pure { moltypeArg := ← ma.optStr?, moltypeMeta := ← mm.optStr?, nrexcl := ← nr.optStr?,
+           header := ← strs? hd,
+           defines := ← (← defs.list?).mapM (fun e => do
+             match ← e.list? with
+             | [n, v] => pure (← n.str?, ← v.str?)
+             | _ => none),
+           atoms := ← (← atoms.list?).mapM rawAtomOf,
+           inters := ← (← inters.list?).mapM (fun e => do
+             match ← e.list? with
+             | [n, v] => pure (← n.str?, ← (← v.list?).mapM interOf)
+             | _ => none),
+           preArg := ← optTable pa, postArg := ← optTable poa, preMeta := ← optTable pm,
+           postMeta := ← optTable pom }
   | _ => none
 
 def molOf (args : List Tok) : Option Mol := do
@@ -96,6 +133,26 @@ def handle (_ : Unit) (toks : List Tok) : Unit × String :=
           let perm := order.isPerm (remainingNames m)
           pure ("ok " ++ encBool wf ++ " " ++ encBool co ++ " " ++ encBool (!wf || rtTok) ++ " "
                 ++ encBool (!(wf && co) || rtChr) ++ " " ++ encBool perm ++ " " ++ encStr text)
+    | Tok.str "call" :: args => do
+        -- the call with its arguments and meta resolved by the model; 12th argument = left-over order or `-`
+        let c ← callOf (args.take 11)
+        let order ← match args.drop 11 with
+          | [Tok.none] => pure none
+          | [o] => (strs? o).map some
+          | _ => none
+        match resolve c with
+        | .error e => pure ("err " ++ encErr e)
+        | .ok m =>
+          match writeCall c order with
+          | .error e => pure ("err " ++ encErr e)
+          | .ok ls =>
+            let text := render ls
+            let wf := wellFormed arityTable m
+            let co := charOk m
+            let rtChr := isOkEq (parse arityTable text) (canon m)
+            let perm := (order.getD (remainingNames m)).isPerm (remainingNames m)
+            pure ("ok " ++ encBool wf ++ " " ++ encBool co ++ " " ++ encBool (!(wf && co) || rtChr) ++ " "
+                  ++ encBool perm ++ " " ++ encStr text)
     | Tok.str "hist" :: rounds :: args => do
         let m ← molOf args
         let rs ← (← rounds.list?).mapM (fun r => do (← r.list?).mapM editOf)
